@@ -266,3 +266,43 @@ func ZZ_C05_reconcile() {
 	nondet.Reach("C05.r.failed-not-promoted", activeExists && !promoted && failed && elapsed)
 	nondet.Reach("C05.r.adopted", !activeExists && promoted)
 }
+
+// ZZ_C05_validNamesNewReplicaSet: "the canary-valid annotation names the new replica set": with a
+// canary that cannot be promoted otherwise (manual mode, or auto mode with the duration not
+// elapsed), whatever status.canary still says — nothing, the new replica set, or the canary of an
+// earlier template (the status is only refreshed later in the same reconcile) — the new replica
+// set is promoted exactly when the annotation carries its name.
+func ZZ_C05_validNamesNewReplicaSet() {
+	ds := &datadoghqv1alpha1.ExtendedDaemonSet{ObjectMeta: metav1.ObjectMeta{Name: "foo", Namespace: "ns", Annotations: map[string]string{}}}
+	c := &datadoghqv1alpha1.ExtendedDaemonSetSpecStrategyCanary{}
+	manual := nondet.Bool("manualMode")
+	if manual {
+		c.ValidationMode = datadoghqv1alpha1.ExtendedDaemonSetSpecStrategyCanaryValidationModeManual
+	} else {
+		c.ValidationMode = datadoghqv1alpha1.ExtendedDaemonSetSpecStrategyCanaryValidationModeAuto
+		c.Duration = &metav1.Duration{Duration: time.Hour}
+	}
+	ds.Spec.Strategy.Canary = c
+	datadoghqv1alpha1.DefaultExtendedDaemonSetSpec(&ds.Spec, datadoghqv1alpha1.ExtendedDaemonSetSpecStrategyCanaryValidationModeAuto)
+	now := nondet.Base()
+	active := &datadoghqv1alpha1.ExtendedDaemonSetReplicaSet{ObjectMeta: metav1.ObjectMeta{Name: "foo-a", Namespace: "ns", CreationTimestamp: metav1.NewTime(now.Add(-24 * time.Hour))}}
+	upToDate := &datadoghqv1alpha1.ExtendedDaemonSetReplicaSet{ObjectMeta: metav1.ObjectMeta{Name: "foo-b", Namespace: "ns", CreationTimestamp: metav1.NewTime(now.Add(-time.Minute))}}
+	ds.Status.ActiveReplicaSet = "foo-a"
+	switch nondet.String("status.canary", "none", "foo-b", "foo-prev") {
+	case "foo-b":
+		ds.Status.Canary = &datadoghqv1alpha1.ExtendedDaemonSetStatusCanary{ReplicaSet: "foo-b", Nodes: []string{"node0"}}
+	case "foo-prev":
+		ds.Status.Canary = &datadoghqv1alpha1.ExtendedDaemonSetStatusCanary{ReplicaSet: "foo-prev", Nodes: []string{"node0"}}
+	}
+	named := ""
+	if nondet.Bool("annValid.present") {
+		named = nondet.String("annValid", "foo-b", "foo-prev", "foo-a", "")
+		ds.Annotations[datadoghqv1alpha1.ExtendedDaemonSetCanaryValidAnnotationKey] = named
+	}
+	cur, _ := selectCurrentReplicaSet(ds, active, upToDate, now)
+	promoted := cur == upToDate
+	nondet.Assert("C05.valid.only-the-named-new-replicaset", promoted == (named == "foo-b"))
+	nondet.Assert("C05.valid.candidates", cur == upToDate || cur == active)
+	nondet.Observe("current", cur.Name)
+	nondet.Reach("C05.valid.stale-canary-named", named == "foo-prev" && ds.Status.Canary != nil && ds.Status.Canary.ReplicaSet == "foo-prev")
+}
